@@ -175,6 +175,19 @@ def ref_excluded(active, values, ignore_unknown=True):
 # construction of the real objects from the declarative description
 # ---------------------------------------------------------------------------
 def _behave_op(name):
+    """The comparison function handed to behave.  If behave passes something that is no current value at all (e.g. an
+    unevaluated getter object) the comparison answers False instead of raising in user code: the wrong verdict shows."""
+    op = _behave_op_raw(name)
+
+    def compare(cur, tag):
+        try:
+            return op(cur, tag)
+        except (TypeError, AttributeError):
+            return False
+    return compare
+
+
+def _behave_op_raw(name):
     import operator
     if name == "prefix":
         return lambda cur, tag: tag.startswith(cur)
@@ -190,6 +203,25 @@ def _behave_op(name):
     return getattr(operator, name)
 
 
+class _CallableGetter(object):
+    def __init__(self, fn):
+        self._fn = fn
+
+    def __call__(self):
+        return self._fn()
+
+
+def _getter(form, fn):
+    """A lazy current value is 'a getter-function (w/o args)': spelled as a lambda / def-function, as a
+    functools.partial object or as an instance with __call__ -- any callable."""
+    if form == "partial":
+        import functools
+        return functools.partial(lambda f: f(), fn)
+    if form == "object":
+        return _CallableGetter(fn)
+    return fn
+
+
 def build_value(desc, force_lazy=False, wrap_plain=False):
     from behave.tag_matcher import BoolValueObject, NumberValueObject, ValueObject
     if desc is None:
@@ -199,7 +231,7 @@ def build_value(desc, force_lazy=False, wrap_plain=False):
             return desc
         return ValueObject((lambda v=desc: v) if force_lazy else desc)
     raw = desc["value"]
-    cur = (lambda v=raw: v) if (desc.get("lazy") or force_lazy) else raw
+    cur = _getter(desc.get("getter"), (lambda v=raw: v)) if (desc.get("lazy") or force_lazy) else raw
     cls = {"value": ValueObject, "number": NumberValueObject, "bool": BoolValueObject}[desc["kind"]]
     if desc.get("op") is None:
         return cls(cur)         # default comparison: equals
@@ -470,6 +502,8 @@ def classify(res, tags, values_list, cfg):
                 res.label("kind:" + desc["kind"])
                 if desc.get("lazy"):
                     res.label("lazy-value-object")
+                    if desc.get("getter") in ("partial", "object"):
+                        res.label("lazy-getter:" + desc["getter"])
                 if desc["kind"] == "number" and not _INT_RE.match(v):
                     res.label("malformed-number")
                 if desc["kind"] == "bool" and v.lower() not in _TRUE and v.lower() not in _FALSE:
@@ -751,8 +785,11 @@ def check_changing(res, case):
         res.label("ambiguous")
         return res
     cell = {"now": worlds[0]}
-    lazy = {c: (lambda c=c: build_value(cell["now"][c])) for c in cats}
+    form = case.get("getter")
+    lazy = {c: _getter(form, (lambda c=c: build_value(cell["now"][c]))) for c in cats}
     first, second = {c: lazy[c] for c in cats[0::2]}, {c: lazy[c] for c in cats[1::2]}
+    # categories that the providers LEARN only after the first decision (a hook stores the browser once it is started)
+    late = [c for c in (case.get("late") or []) if c in cats] if mode in ("dict", "composite-dict", "composite-mixed") else []
     if mode == "dict":
         # a plain mapping is read with get(): lazy values are value objects built over a callable
         # (documented: ValueObject(callable)); a bare callable stands for a lazy plain value
@@ -760,10 +797,10 @@ def check_changing(res, case):
         for c in cats:
             d = worlds[0][c]
             if d is None or isinstance(d, str):
-                provider[c] = (lambda c=c: cell["now"][c])
+                provider[c] = _getter(form, (lambda c=c: cell["now"][c]))
             else:
                 cls = {"value": ValueObject, "number": NumberValueObject, "bool": BoolValueObject}[d["kind"]]
-                cur = (lambda c=c: cell["now"][c]["value"])
+                cur = _getter(form, (lambda c=c: cell["now"][c]["value"]))
                 provider[c] = cls(cur) if d.get("op") is None else cls(cur, _behave_op(d["op"]))
     elif mode == "atvp":
         provider = ActiveTagValueProvider(dict(lazy))
@@ -775,12 +812,24 @@ def check_changing(res, case):
         provider = CompositeActiveTagValueProvider([first, GetOnlyProvider({}), ActiveTagValueProvider(second)])
     else:
         raise ValueError(mode)
+    holders = {}
+    for c in late:
+        # (only mappings that the provider reads by reference: ActiveTagValueProvider takes a copy of its data)
+        for mapping in ([provider] if mode == "dict" else ([first] if mode == "composite-mixed" else [first, second])):
+            if c in mapping:
+                holders[c] = (mapping, mapping.pop(c))
     matcher = build_active_matcher(provider, cfg)
     verdicts = []
     order = case.get("order") or [0, 1, 0]
-    for k in order:
+    for n_decision, k in enumerate(order):
+        if n_decision == 1:
+            for c, (mapping, value) in holders.items():
+                mapping[c] = value
+            if holders:
+                res.label("changing:category-learned-after-the-first-decision")
         cell["now"] = worlds[k]
-        expected = ref_excluded(active, worlds[k], ignore_unknown)
+        known_now = worlds[k] if (n_decision >= 1 or not holders) else {c: v for c, v in worlds[k].items() if c not in holders}
+        expected = ref_excluded(active, known_now, ignore_unknown)
         excl = matcher.should_exclude_with(list(tags))
         res.evals += 1
         verdicts.append(expected)
@@ -1060,6 +1109,7 @@ def gen_value_desc(rnd):
         cur = rnd.choice(STRING_POOL)
         return cur, [cur, cur, cur + "y", cur[:-1]] + STRING_POOL[:4]
     lazy = rnd.random() < 0.5
+    getter = rnd.choice(["lambda", "lambda", "partial", "object"]) if lazy else None
     if kind == "value":
         op = rnd.choice([None, "eq", "ne", "ge", "le", "contains", "prefix", "ieq", "count", "regex"])
         if op == "contains":
@@ -1071,7 +1121,7 @@ def gen_value_desc(rnd):
         else:
             cur = rnd.choice(STRING_POOL)
             hints = [cur, cur, cur + "y", cur[:-1], cur.upper(), cur.lower()] + STRING_POOL[:3]
-        return {"kind": "value", "op": op, "value": cur, "lazy": lazy}, hints
+        return {"kind": "value", "op": op, "value": cur, "lazy": lazy, "getter": getter}, hints
     if kind == "number":
         op = rnd.choice(NUMBER_OPS + ["contains", "bitand"])
         if op == "contains":
@@ -1082,9 +1132,9 @@ def gen_value_desc(rnd):
             base = cur
         hints = [str(base), str(base), str(base + 1), str(base - 1), "+%d" % abs(base), "0%d" % abs(base),
                  rnd.choice(NUMBER_TAGS_BAD)]
-        return {"kind": "number", "op": op, "value": cur, "lazy": lazy}, hints
+        return {"kind": "number", "op": op, "value": cur, "lazy": lazy, "getter": getter}, hints
     op = rnd.choice([None, "eq", "ne"])
-    return ({"kind": "bool", "op": op, "value": rnd.random() < 0.5, "lazy": lazy},
+    return ({"kind": "bool", "op": op, "value": rnd.random() < 0.5, "lazy": lazy, "getter": getter},
             BOOL_TAGS + [rnd.choice(BOOL_TAGS_BAD)])
 
 
@@ -1194,7 +1244,10 @@ def gen_changing_case(rnd):
             other[c] = nd
     values = {c: (dict(d, lazy=False) if isinstance(d, dict) else d) for c, d in values.items()}
     case = {"kind": "changing", "tags": tags, "values": [values, other], "mode": rnd.choice(CHANGING_MODES),
-            "order": rnd.choice([[0, 1, 0], [0, 1], [1, 0, 1], [0, 0, 1, 1, 0]])}
+            "order": rnd.choice([[0, 1, 0], [0, 1], [1, 0, 1], [0, 0, 1, 1, 0]]),
+            "getter": rnd.choice(["lambda", "lambda", "partial", "object"])}
+    if rnd.random() < 0.3 and values:
+        case["late"] = [rnd.choice(sorted(values))]
     if cfg is not None:
         case["cfg"] = cfg
     return case
@@ -1274,7 +1327,8 @@ def required_labels(tier):
             + ["setup_active_tag_values", "setup:overrides-known-category", "setup:unknown-category-in-data",
                "setup:matcher-created-before-the-values"]
             + ["setup:" + m for m in SETUP_MODES]
-            + ["changing-lazy-values", "changing:verdict-flips"] + ["changing:" + m for m in CHANGING_MODES]
+            + ["changing-lazy-values", "changing:verdict-flips", "changing:category-learned-after-the-first-decision",
+               "lazy-getter:partial", "lazy-getter:object"] + ["changing:" + m for m in CHANGING_MODES]
             + ["malformed-with-unavailable-current-value", "overlapping-providers", "overlap:providers-disagree",
                "overlap:first-decision-before-the-value-exists", "overlap:atvp", "overlap:dict", "overlap:mixed"])
 
